@@ -108,6 +108,15 @@ class PROP(Prop):
                         for parts in splits:
                             cs.append(Case(cligen.cli_line(proto, slave, [cligen.call_op(req, R=mb.rscript(parts), typed=True)]),
                                            {"foreign": True, "req": mb.show_req(req), "pdu": pdu.hex(), "split": len(parts[0])}, prof))
+        # an exception reply of ANY code -- also the ones that sound like success (Acknowledge 5) or "try again" (Busy 6) -- is returned as
+        # that exception by every typed method: never as success
+        for proto in ("tcp", "rtu"):
+            for req in [("RC", 1, 3), ("RDI", 1, 3), ("RHR", 1, 2), ("RIR", 1, 2), ("RWMR", 1, 2, 3, [4]), ("WSC", 1, True), ("WSR", 1, 2), ("WMC", 1, [True, False]), ("WMR", 1, [2, 3]), ("MWR", 1, 2, 3)]:
+                for code in list(range(1, 12)) + [rng.randrange(12, 256)]:
+                    slave = rng.randrange(1, 248)
+                    fr = cligen.frame(proto, 0, slave, cligen.exc_pdu(mb.req_fc(req), code))
+                    cs.append(Case(cligen.cli_line(proto, slave, [cligen.call_op(req, R="d" + fr.hex(), typed=True)]),
+                                   {"req": mb.show_req(req), "rsp": mb.show_rsp(mb.matching_rsp(rng, req)), "exc": code, "q": 0, "have": 1}, "debug"))
         # one TCP client object through more than 65 536 typed calls: every one returns exactly the requested items
         slave, ops = rng.randrange(1, 248), []
         for j in range(65536 + 20):
